@@ -436,6 +436,48 @@ func run(c *hc.Ctx) error {
 		add(line, out)
 	}
 
+	// ---- 2b. the decode-side 1 MiB limit: a length field above 2^20 must be refused even when
+	// that many bytes really follow (no allocation on the sender's say-so)
+	for _, l := range []int{1<<20 + 1, 1<<20 + 4, 1<<20 + 4096, 2 << 20, 16 << 20} {
+		if l > 4<<20 && !c.Thorough() {
+			continue
+		}
+		var b bin.Buffer
+		b.PutID(proto.MessageContainerTypeID)
+		b.PutInt(1)
+		b.PutLong(i64(r))
+		b.PutInt(1)
+		b.PutInt(l)
+		b.Put(make([]byte, l))
+		out, _, _, pan := decContainer(b.Buf)
+		line := fmt.Sprintf("container with one message of Bytes=%d and %d bytes following", l, l)
+		c.Eval(line, true)
+		c.Count("container.over-limit-with-body")
+		if pan != nil {
+			c.Fail("panic:container", line, fmt.Sprint(pan))
+		} else if out != "err other:length" {
+			c.Fail("container-limit-decode", line, "Decode did not refuse a message longer than 1 MiB: "+clip(out))
+		}
+		if l <= 1<<20+4096 {
+			add("cdec "+hc.Hex(b.Buf), out)
+		}
+	}
+	// exactly at the limit it must be accepted
+	{
+		var b bin.Buffer
+		b.PutID(proto.MessageContainerTypeID)
+		b.PutInt(1)
+		b.PutLong(7)
+		b.PutInt(3)
+		b.PutInt(1 << 20)
+		b.Put(make([]byte, 1<<20))
+		out, got, _, pan := decContainer(b.Buf)
+		c.Eval("container with one message of exactly 2^20 bytes", true)
+		if pan != nil || !strings.HasPrefix(out, "ok") || len(got) != 1 || len(got[0].Body) != 1<<20 {
+			c.Fail("container-limit-decode", "container with one message of exactly 2^20 bytes", "not accepted: "+clip(out))
+		}
+	}
+
 	// ---- 3. results
 	nr := c.N(10000, 200000)
 	for i := 0; i < nr; i++ {
